@@ -258,14 +258,22 @@ pub fn generate(rng: &mut Rng, tier: Tier) -> Scenario {
     let heavy = matches!(kind, Kind::Mad | Kind::Er | Kind::Cci | Kind::Min | Kind::Max | Kind::FastStoch | Kind::SlowStoch | Kind::Ce);
     let len = match tier {
         Tier::Quick => {
-            if rng.chance(0.05) && !(heavy && sum > 64) {
+            if rng.chance(0.02) && !heavy && sum <= 64 {
+                1_000_000 // a slow leak (a byte per thousand calls) needs this long to cross the bound
+            } else if rng.chance(0.05) && !(heavy && sum > 64) {
                 200_000
             } else {
                 20_000
             }
         }
         Tier::Thorough => {
-            let cap = if heavy && sum > 64 { 200_000 } else { 1_000_000 };
+            let cap = if heavy && sum > 64 {
+                200_000
+            } else if !heavy && sum <= 64 && rng.chance(0.1) {
+                8_000_000
+            } else {
+                1_000_000
+            };
             rng.log_range(20_000, cap)
         }
     } as u64;
